@@ -438,6 +438,29 @@ def index_guarded(bi, bb):
     return False
 
 
+def ordered_by_creation_id(prog, bid, sl):
+    """every insert into a BTreeMap of the crate's state that holds resource handles uses the resource's internal id (the
+    manager's counter) as key"""
+    A = prog.anchors
+    idf = {A.cell("Topic", "internal_id"), A.cell("Subscription", "internal_id"), A.cell("TopicState", "next_id"), A.cell("SubState", "next_id")}
+    n = 0
+    for b in prog.facts.lib_bodies():
+        bi = prog.info(b.id)
+        for bb, t in bi.calls(lambda c: c.path == "std::collections::BTreeMap::<K, V, A>::insert"):
+            vty = b.operand_ty(t.args[2]) if len(t.args) > 2 else ""
+            if not any(h in (vty or "") for h in (A.ty("Topic"), A.ty("Subscription"))):
+                continue
+            n += 1
+            ks = sl.of_resolved(b.id, t.args[1])
+            if not (idf & set(ks.fields)):
+                return False, "a key inserted at %s is not recognisably the creation id" % bi.loc(bb)
+            if ks.ops & {"Sub", "SubWithOverflow", "Mul", "MulWithOverflow", "Div", "Rem", "BitXor", "Not"}:
+                return False, "the key at %s is computed (%s)" % (bi.loc(bb), sorted(ks.ops))
+    if n == 0:
+        return False, "no insert into an ordered collection of resources found"
+    return True, ""
+
+
 def scope_by_loop(prog, bi, sl, bid, st):
     """the candidates may be gathered by hand (`for t in map.values() { if t.name.is_in_project(p) { found.push(t.clone()) } }`):
     every push of a map element that feeds the pipeline sits on the true arm of an is_in_project() test"""
@@ -485,6 +508,27 @@ def r13_2(prog, out):
             if pushes and reads_paging and not unguarded:
                 out.undecided("%s:stages" % name, bi.loc(pushes[0]), "the page is filled by a hand-written loop instead of skip(offset).take(size): "
                               "equivalence with the sibling pipelines is not decided statically")
+                continue
+        if missing == ["sort"]:
+            # no sort stage: the page may be read from a collection that is ordered by construction (a BTreeMap keyed by the
+            # creation id, kept next to the by-name map)
+            src = sl.of(bid, bi.call_at(st["skip"]).args[0])
+            ordered = sorted(c for c in src.calls if ("BTreeMap" in c or "BTreeSet" in c) and c.split("::")[-1] in ("values", "iter", "into_values", "into_iter", "range", "keys"))
+            if ordered:
+                keys_ok, why = ordered_by_creation_id(prog, bid, sl)
+                if keys_ok:
+                    out.holds("%s:sorted-before-paging" % name, bi.loc(st["skip"]), "the page is read from a BTreeMap whose keys are the resources' creation ids: ordered by construction")
+                # a per-project / ordered index instead of filter + sort: the pipeline is no longer a sibling of the others; its
+                # scope (which bucket is read) and the agreement of index and by-name map are not decided by these rules
+                out.undecided("%s:stages" % name, bi.loc(st["skip"]), "the page is read from an ordered index instead of filter + sort%s: scope and completeness of the index "
+                              "are not decided statically (skip / take arguments and bounds still are)" % ("" if keys_ok else "; " + why))
+                take_t, skip_t = bi.call_at(st["take"]), bi.call_at(st["skip"])
+                for nm, tt, cellf in (("skip-arg", skip_t, "offset"), ("take-arg", take_t, "size")):
+                    sa = sl.of(bid, tt.args[1])
+                    if A.cell("Paging", cellf) in sa.fields and not (sa.ops & {"Add", "AddWithOverflow", "Sub", "SubWithOverflow", "Mul", "MulWithOverflow"}):
+                        out.holds("%s:%s" % (name, nm), bi.loc(st["skip"]), "%s comes from the paging unchanged" % nm)
+                    else:
+                        out.violation("%s:%s" % (name, nm), bi.loc(st["skip"]), "%s is not the paging %s unchanged" % (nm, cellf))
                 continue
         if missing and set(missing) <= {"skip", "take"}:
             cuts = window_cuts(prog, bi)
@@ -553,8 +597,14 @@ def r13_2(prog, out):
         else:
             out.violation(key, bi.loc(st["skip"]), "the page is cut before the resources are sorted: pages overlap or miss resources")
         # arguments
-        s_skip = sl.of_resolved(bid, skip_t.args[1])
-        s_take = sl.of_resolved(bid, take_t.args[1])
+        # within the pipeline: from the Paging it was given (how that Paging was built from the request is R13.1 / R13.3)
+        def paging_slice(op):
+            s0 = sl.of(bid, op)
+            only_paging = s0.roots and all(r[0] == "param" and paging in (prog.facts.body(r[1]).local_ty(r[2]) or "") for r in s0.roots
+                                           if r[0] == "param" and prog.facts.body(r[1]) is not None) and all(r[0] == "param" for r in s0.roots)
+            return s0 if only_paging else sl.of_resolved(bid, op)
+        s_skip = paging_slice(skip_t.args[1])
+        s_take = paging_slice(take_t.args[1])
         key = "%s:skip-arg" % name
         if A.cell("Paging", "offset") in s_skip.fields and not (s_skip.ops & {"Add", "AddWithOverflow", "Sub", "SubWithOverflow", "Mul", "MulWithOverflow"}):
             out.holds(key, bi.loc(st["skip"]), "skips exactly the paging offset")
@@ -844,6 +894,7 @@ def r13_5(prog, out):
 
 
 @rule("C13", "R13.6", "hostile offsets cannot panic the listing pipelines", floor=3)
+@rule("C17", "R13.6", "hostile offsets cannot panic the listing pipelines", floor=3)
 def r13_6(prog, out):
     for bid in listing_bodies(prog):
         bad = []
@@ -884,3 +935,48 @@ def r13_6(prog, out):
             out.violation(key, prog.loc(cid, bb), "%s in the listing pipeline can panic for an offset beyond the list" % n)
         else:
             out.holds(key, prog.loc(bid), "only iterator adapters (skip/take saturate on out-of-range offsets)")
+
+
+UNORDERED = {"buffer_unordered", "try_buffer_unordered", "for_each_concurrent", "try_for_each_concurrent", "select_all", "select_next_some",
+             "join_next", "rev", "reverse", "sort", "sort_by", "sort_by_key", "sort_unstable", "sort_unstable_by", "sort_unstable_by_key", "swap", "swap_remove",
+             "rotate_left", "rotate_right", "shuffle", "dedup", "retain", "into_values", "into_keys", "drain_filter", "par_iter", "into_par_iter"}
+UNORDERED_TYPES = ("FuturesUnordered", "JoinSet", "HashMap", "HashSet", "BTreeMap", "BTreeSet", "BinaryHeap")
+
+
+@rule("C13", "R13.7", "a listing handler returns the page's resources in the page's order", floor=3)
+def r13_7(prog, out):
+    """The page comes out of the manager / topic actor sorted by creation.  Whatever the handler does per resource (asking
+    each subscription for its info, mapping to wire messages) has to keep that order: joins that complete in arrival order
+    (`buffer_unordered`, `FuturesUnordered`, a JoinSet), re-sorting, or a detour through an unordered collection do not."""
+    sl = Slicer(prog)
+    n = 0
+    for h in prog.handlers:
+        if not h.name.startswith("list_") or h.root is None:
+            continue
+        hi = prog.info(h.root)
+        if any(t.callee.path.endswith("Status::unimplemented") for bb, t in hi.calls()):
+            continue
+        cone = set(prog.cone(h.root, follow=("closure",))) | {h.root}
+        for (rb, rbb, ri, rrv) in prog.constructions_in(h.root):
+            names = rrv.j.get("fields", [])
+            if "next_page_token" not in names:
+                continue
+            for f, op in zip(names, rrv.ops):
+                ty = prog.info(rb).body.operand_ty(op) or ""
+                if not ty.startswith("std::vec::Vec<"):
+                    continue
+                n += 1
+                key = "order:%s.%s" % (h.name, f)
+                # from the page the manager / actor returned (its own order is R13.2's subject) to the response
+                s = Slicer(prog, stop_at=lambda ty: "crate::" in ty and "Page" in ty.split("<")[0].split("::")[-1]).of(rb, op)
+                bad = sorted({c.split("::")[-1].split("<")[0] for c in s.calls} & UNORDERED)
+                badty = sorted({w for c in s.calls for w in UNORDERED_TYPES if ("::%s::" % w in c or "::%s<" % w in c) and not c.startswith("crate::")
+                                and c.split("::")[-1] in ("iter", "iter_mut", "into_iter", "values", "values_mut", "keys", "drain", "into_values", "into_keys",
+                                                          "into_sorted_vec", "into_vec", "join_next", "next", "poll_next", "from_iter", "collect")})
+                if bad or badty:
+                    out.violation(key, prog.loc(rb, rbb), "the resources of the page pass through %s before they are returned: the response is no longer in creation order "
+                                  "(it depends on completion / hash order), so pages are not stable" % (bad or badty))
+                else:
+                    out.holds(key, prog.loc(rb, rbb), "page -> response through order-preserving steps only")
+    if n == 0:
+        raise CheckBroken("no listing response found")
